@@ -243,8 +243,11 @@ def parse_http_responses(data: bytes) -> Tuple[List[dict], bytes]:
     return msgs, data
 
 
-def http_request(method: str, target: str, body: bytes = b"", ctype: Optional[str] = None) -> bytes:
-    head = f"{method} {target} HTTP/1.1\r\nHost: acc.local\r\n"
+def http_request(method: str, target: str, body: bytes = b"", ctype: Optional[str] = None, shape: str = "ka") -> bytes:
+    """shape: "ka" persistent HTTP/1.1 (default), "close" HTTP/1.1 with `Connection: close`, "http10" an HTTP/1.0 request."""
+    head = f"{method} {target} HTTP/{'1.0' if shape == 'http10' else '1.1'}\r\nHost: acc.local\r\n"
+    if shape == "close":
+        head += "Connection: close\r\n"
     if body or method in ("POST", "PUT"):
         head += f"Content-Length: {len(body)}\r\n"
     if ctype:
